@@ -11,11 +11,11 @@ import (
 
 func init() {
 	register(&Property{
-		ID:      "C04",
-		Engines: []string{"cfg", "lockset"},
+		ID:          "C04",
+		Engines:     []string{"cfg", "lockset"},
 		Explanation: "Flush liveness rests on the invariant 'queue non-empty => write interest registered'; decided as code shape: every enqueue is followed by arming before the mutex is released (O1); write interest is disarmed only under the mutex on the queue-empty edge (O2); the isWAdded flag and the epoll registration change together behind the !closed test (O3); the epoll interest masks carry the required bits (O4); the write-event edge of the poller reaches flush and nothing else calls flush (O5); the one-shot re-arm chooses read+write exactly on the queue-non-empty edge and reads the queue under the mutex (O6); a registration issued after a user callback reconciles a backlog the callback created (O7). The re-arm sites reach the kernel registration without the isWAdded guard (O6, O7); flush gives up with a non-empty queue only on the EAGAIN edge (O9). The disarm helper clears the flag on every path on which it found it set (O10); an explicit success return of flush's head-writers is behind the pop of the head (O11).",
-		NotCovered: "that the kernel delivers the event; eventual delivery itself; edge-triggered timing",
-		Run:        runC04,
+		NotCovered:  "that the kernel delivers the event; eventual delivery itself; edge-triggered timing",
+		Run:         runC04,
 	})
 }
 
@@ -31,6 +31,8 @@ func runC04(c *Ctx) {
 	c.Rule("C04.O9", "E4", "flush gives up with a non-empty queue only when the kernel refused bytes: every success return is on the queue-empty edge or on the EAGAIN edge (edge-triggered mode delivers no further event otherwise)", 1)
 	c.Rule("C04.O10", "E4", "the disarm helper clears isWAdded on every path on which it found the flag set on an open connection: the flag may never say 'armed' after flush has drained the queue", 1)
 	c.Rule("C04.O11", "E4", "flush makes progress: an explicit success return of a head-writer (buffer / file) is behind the pop of the head on every path, so the drain loop cannot see the same finished head again", 1)
+	c.Rule("C04.O12", "E5", "whether something is queued is decided on the queue itself, never on the byte counter Conn.left (same rule as C17.O6)", 1)
+	c17Readers(c, "C04.O12")
 	c.Rule("C04.O8", "E4", "one-shot mode: every dispatch of an event for a live connection re-registers the descriptor (ResetPollerEvent, the async read job, a custom OnRead, or close) before the next event is awaited", 1)
 
 	core := c.Core()
